@@ -431,10 +431,13 @@ func Run(t *simkit.Tape, o *simkit.Outcome, full bool) {
 
 	// seed the pool and the held results with shapes that produce reverse order
 	// and spare capacity
-	seedExprs := []string{"//*/@*", "/*/@*", "/*/*/@*", "//*[1]/@*", "//.", "//self::node()", "/*//.", "//*", "//*/ancestor::*", "//node()/preceding-sibling::node()", "//@*", "/*/*", "//text()", "//*[last()]/ancestor-or-self::*", "//*/preceding::*", "//*/namespace::*", "/"}
+	seedExprs := []string{"//*/@*", "/*/@*", "/*/*/@*", "//*[1]/@*", "/*/*[position() < 3]/@*", "/*/*[position() != 2]/@*", "/*/*[last()]/@* | /*/*[1]/@*", "//.", "//self::node()", "/*//.", "//*", "//*/ancestor::*", "//node()/preceding-sibling::node()", "//@*", "/*/*", "//text()", "//*[last()]/ancestor-or-self::*", "//*/preceding::*", "//*/namespace::*", "/"}
 	nSeed := 1 + t.Draw(3)
 	for i := 0; i < nSeed; i++ {
 		str := seedExprs[t.Draw(len(seedExprs))]
+		if s.specs[0].Family == "capacity" && t.Bool(2, 3) {
+			str = world.CapacityExprs[t.Draw(len(world.CapacityExprs))]
+		}
 		pi := s.build(str, model.TNodeSet, "seed")
 		s.execKeep(opRecord{desc: fmt.Sprintf("ExecAsNodeset(%s, e%d)", s.w.PathOf(world.NodeRef{}), pi), req: world.ExecReq{Expr: str, Ctx: world.NodeRef{}}})
 	}
